@@ -71,16 +71,25 @@ TTime ==
 Skip(names) == l <= Len(Trace) /\ Trace[l].ev \in names /\ Trace[l].t \div 100 <= now /\ Same /\ KeepE /\ Adv
 
 \* ---- callers
-TAdmitMiss == Ev("AdmitMiss") /\ Call(E.c) /\ pc'[E.c] = "missed" /\ KeepE /\ Adv
+\* the sync.Map.Load is lock-free: it may have missed before another caller's store that is logged earlier
+TAdmitMiss ==
+  /\ Ev("AdmitMiss") /\ pc[E.c] = "idle" /\ shut = "no"
+  /\ pc' = [pc EXCEPT ![E.c] = "missed"]
+  /\ UNCHANGED <<n, cx, cb, ret, rem, errs, resp, preLimitOk, envVars, admVars, shardVars, expVars, histVars>>
+  /\ KeepE /\ Adv
 TAdmitNew == Ev("AdmitNew") /\ AdmitSlow(E.c) /\ pc'[E.c] = "try" /\ size' = E.a /\ size' = size + 1
              /\ ShardOf(E.c) = E.s /\ KeepE /\ Adv
 TAdmitLost == Ev("AdmitLost") /\ AdmitSlow(E.c) /\ pc'[E.c] = "try" /\ size' = size /\ size = E.a /\ KeepE /\ Adv
 TAdmitReject == Ev("AdmitReject") /\ AdmitSlow(E.c) /\ ret'[E.c] = "toomany" /\ size = E.a /\ KeepE /\ Adv
+\* singleton shard or sync.Map hit.  The hit may be on a shard whose creator has stored it but not yet
+\* logged its AdmitNew (the store precedes the hook), so `stored` is not consulted here.
 TEnqueueTry ==
   /\ Ev("EnqueueTry")
-  /\ \/ pc[E.c] = "idle" /\ Call(E.c) /\ pc'[E.c] = "try"      \* singleton shard, or sync.Map hit
+  /\ \/ /\ pc[E.c] = "idle" /\ shut = "no"
+        /\ pc' = [pc EXCEPT ![E.c] = "try"]
+        /\ UNCHANGED <<n, cx, cb, ret, rem, errs, resp, preLimitOk, envVars, admVars, shardVars, expVars, histVars>>
      \/ pc[E.c] = "try" /\ Same
-  /\ n[E.c] = E.a /\ ShardOf(E.c) = E.s
+  /\ n[E.c] = E.a /\ (E.s # "" => ShardOf(E.c) = E.s)
   /\ KeepE /\ Adv
 TEnqueueSend ==
   /\ Ev("EnqueueSend")
@@ -127,7 +136,7 @@ TReturn ==
   /\ Ev("Return")
   /\ \/ pc[E.c] = "returned" /\ RetOk(E.c, E.k) /\ Same
      \/ pc[E.c] = "try" /\ n[E.c] = 0 /\ ReturnEmpty(E.c) /\ E.k = "nil"
-     \/ /\ pc[E.c] = "idle" /\ n[E.c] = 0 /\ ShardOf(E.c) \in stored /\ E.k = "nil"   \* empty request, shard known: no hook at all
+     \/ /\ pc[E.c] = "idle" /\ n[E.c] = 0 /\ E.k = "nil"                 \* empty request, shard known: no hook at all
         /\ pc' = [pc EXCEPT ![E.c] = "returned"] /\ ret' = [ret EXCEPT ![E.c] = "nil"]
         /\ UNCHANGED <<n, cx, cb, rem, errs, resp, preLimitOk, envVars, admVars, shardVars, expVars, histVars>>
   /\ KeepE /\ Adv
